@@ -626,6 +626,9 @@ class PersistenceImager(TransformerMixin):
             # double precision copy: ranges learned in single precision would not
             # be whole multiples of the pixel size (nor contain the fitted pairs)
             pers_dgm = np.array(pers_dgm, dtype=np.float64)
+            if pers_dgm.size == 0:
+                # an empty diagram has no pairs to enclose
+                continue
             if skew:
                 pers_dgm[:, 1] = pers_dgm[:, 1] - pers_dgm[:, 0]
 
@@ -643,6 +646,10 @@ class PersistenceImager(TransformerMixin):
 
             if max_p > max_pers:
                 max_pers = max_p
+
+        if not np.isfinite(min_birth):
+            # nothing but empty diagrams: there is nothing to learn
+            return
 
         self.birth_range = (min_birth, max_birth)
         self.pers_range = (min_pers, max_pers)
